@@ -11,7 +11,7 @@ from harness.merge_impl import (FaultInjector, build_inputs, canon_model_fs, do_
 from harness.store_check import OP_CLASS, check_histories, load_corpus
 from harness.store_impl import fresh_dir, gen_history, rm_dir
 
-RULE = ('(a) store histories as in C07 but with an invalid trajectory (missing required value / other field sets / inconsistent '
+RULE = ('(a) store histories as in C07 but with an invalid trajectory (missing required value / other field sets / a species outside the file species dimension / inconsistent '
         'identifier use / too large) injected at every position of the add sequence in turn, compared with the Lean model and '
         'the list specification on every later operation incl. close and reopen; (b) merges of 1..4 stores refused for every '
         'validation rule, then retried after correcting the cause; (c) an exception injected at every file-system step of a '
@@ -40,6 +40,8 @@ def inject_invalid(rng, ops):
         bad = {'op': 'add', 'tag': 900 + pos, 'npts': 40, 'extra': extra, 'fid': (7000 + pos) if indexable else None}
         if kind == 'missing_required':
             bad['bad'] = 'missing_required'
+        elif kind == 'species':
+            bad['bad'] = 'species'
         elif kind == 'fs':
             bad['extra'] = not extra
         elif kind == 'id':
@@ -215,6 +217,60 @@ def refusal_retry_cases(ctx, rng, n):
             rm_dir(d)
 
 
+def species_rejection_scenarios(ctx, n):
+    """A trajectory carrying a species outside the species dimension of the file (fixed by the first trajectory) is refused:
+    like every other refusal it must leave the store as it was. Compared with a plain Python list (no model involved: whether
+    the trajectory is invalid depends on what the file already holds)."""
+    from harness.store_impl import RealStore, canon_impl, fresh_dir, rm_dir
+
+    for _ in range(n):
+        rng = ctx.rng
+        k1, k2 = int(rng.integers(1, 4)), int(rng.integers(0, 3))
+        reopen = str(rng.choice(['none', 'append', 'append_before']))
+        ops = [{'op': 'create', 'file': True, 'cache_mb': int(rng.choice([1, 64]))}]
+        tag = 0
+        for _i in range(k1):
+            ops.append({'op': 'add', 'tag': tag, 'npts': 30, 'extra': True, 'fid': None})
+            tag += 1
+        if reopen == 'append_before':
+            ops.append({'op': 'open_append', 'cache_mb': 1})
+        ops.append({'op': 'add', 'tag': 500, 'npts': 30, 'extra': True, 'fid': None, 'bad': 'species'})
+        ops += [{'op': 'len'}, {'op': 'iter'}]
+        for _i in range(k2):
+            ops.append({'op': 'add', 'tag': tag, 'npts': 30, 'extra': True, 'fid': None})
+            tag += 1
+        if reopen == 'append':
+            ops += [{'op': 'open_append', 'cache_mb': 1}, {'op': 'add', 'tag': tag, 'npts': 30, 'extra': True, 'fid': None}]
+            tag += 1
+        ops += [{'op': 'len'}, {'op': 'iter'}, {'op': 'close'}, {'op': 'open_read', 'cache_mb': 1}, {'op': 'len'}, {'op': 'iter'}]
+        # list oracle
+        want, lst = [], []
+        for o in ops:
+            if o['op'] == 'add':
+                if o.get('bad'):
+                    want.append('err:value_error')
+                else:
+                    want.append(f'idx:{len(lst)}')
+                    lst.append(f"t{o['tag']}")
+            elif o['op'] == 'len':
+                want.append(f'len:{len(lst)}')
+            elif o['op'] == 'iter':
+                want.append('iter:' + ','.join(lst))
+            else:
+                want.append('ok')
+        from harness.store_impl import run_impl
+
+        got, _ = run_impl(ops, with_keys=False)
+        ctx.case('species:' + json.dumps(ops, sort_keys=True), nontrivial=True,
+                 sample={'ops': [o['op'] + (':' + o['bad'] if o.get('bad') else '') for o in ops], 'impl': got})
+        ctx.count('species_rejection')
+        if got != want:
+            i = next(i for i, (a, b) in enumerate(zip(got, want)) if a != b)
+            ctx.clause_fail('rejected_add_is_noop', {'ops': ops, 'impl_outs': got, 'spec_outs': want, 'first_bad_op': i},
+                            detail=f'after refusing a trajectory with a species outside the file species dimension: op #{i} '
+                                   f'{ops[i]["op"]} returned {got[i]}, the list specification requires {want[i]}')
+
+
 def main(ctx):
     ctx.proofs()
     aeic_setup()
@@ -226,6 +282,7 @@ def main(ctx):
         base = gen_history(ctx.rng, 14, invalid_rate=0.0)
         hs += inject_invalid(ctx.rng, base)
     check_histories(ctx, hs, OP_CLASS['C10'], 'rejected_add_is_noop', nontrivial_hist, tag=' (C10)')
+    species_rejection_scenarios(ctx, ctx.scale(quick=12, thorough=200))
     # (b) refusals and retries
     refusal_retry_cases(ctx, ctx.rng, ctx.scale(quick=10, thorough=100))
     # (c) exception at every step, (d) kill at every step
